@@ -172,6 +172,7 @@ def run(F, rep, tier="quick", extra=None, only=None):
 
     check_blankets(F, rep)
     check_slice_bounds(F, rep)
+    check_slice_clamp(F, rep)
     check_contract_applies(F, rep, [t for t in types if t.split("::")[-1] not in ("Alpha", "PreAlpha") and t in wb and t in cl and t in ca])
     return {"level": "proof"}
 
@@ -268,6 +269,34 @@ def check_slice_bounds(F, rep):
         problems.append("accumulator does not start from from_bool(true)")
     rep.ob("BOUNDS-SLICE", "<[T] as IsWithinBounds>::is_within_bounds", not problems,
            "; ".join(problems) if problems else "true, &= every item, early exit only when every lane is false, returns the accumulator", F.loc(b))
+
+
+def check_slice_clamp(F, rep):
+    """BOUNDS-SLICE (clamp): clamping a slice clamps *every* element in place with the element's own clamp_assign and nothing else (the
+    symbolic evaluator models a loop over the whole slice as one element-wise update; a loop over part of it, or over a zip of two
+    halves, is not of that form)."""
+    from .c10 import _first_app_name
+    from .c08 import _find_apps
+    ims = [im for im in F.find_impls(trait="ClampAssign") if im["self_s"] == "[T]"]
+    if len(ims) != 1:
+        rep.fail("ANCHOR", "slice:clamp_assign", "impl ClampAssign for [T]: %d impls" % len(ims))
+        return
+    b = F.impl_method(ims[0], "clamp_assign")
+    S = Session(F)
+    try:
+        args = S.args(b, ["s"])
+        _, fr = S.ev.eval_body(b, args)
+        v = S.final_self(fr)
+        ok = isinstance(v, Struct) and v.path == "<elementwise>"
+        detail = repr(v)[:240]
+        if ok:
+            el = v.fields["elem"]
+            nm = _first_app_name(el) or ""
+            at = _find_apps(el, lambda n_: n_ == nm)
+            ok = nm.startswith("mut0:ClampAssign::clamp_assign<") and len(at) == 1 and len(at[0].args) == 1 and sym.val_eq(at[0].args[0], S.ctx.sym("s[i]"))
+        rep.ob("BOUNDS-SLICE", "<[T] as ClampAssign>::clamp_assign", ok, detail, F.loc(b))
+    except (Opaque, poly.TooBig) as ex:
+        rep.fail("BOUNDS-SLICE", "<[T] as ClampAssign>::clamp_assign", "not an element-wise update of the whole slice: %s" % ex, F.loc(b))
 
 
 def check_blankets(F, rep):
